@@ -92,6 +92,12 @@ func grid(thorough bool) []ceremony {
 			out[i].Rep += 5
 			out[i].Focus = "latedeal"
 		}
+		base = len(out)
+		add(engPedersen, []int{3, 4}, []int{1, 2}, 1)
+		for i := base; i < len(out); i++ {
+			out[i].Rep += 6
+			out[i].Focus = "lateann"
+		}
 		for _, n := range []int{3, 4} {
 			for _, algo := range []string{"frost", "pedersen"} {
 				out = append(out, ceremony{Engine: engFullRun + "-" + algo, N: n, T: n - 1, V: 2, Rep: 0})
@@ -124,6 +130,10 @@ func grid(thorough bool) []ceremony {
 			out[i].Rep += 4
 			out[i].Focus = "slowlink"
 		}
+		// Late-announcement class: one val_pubkey_share reaches one node after that node's collect timeout.
+		out = append(out,
+			ceremony{Engine: engPedersen, N: 3, T: 2, V: 1, Rep: 6, Focus: "lateann"},
+			ceremony{Engine: engPedersen, N: 4, T: 3, V: 2, Rep: 6, Focus: "lateann"})
 		// Late-bundle class: one dealer's deal reaches one node just after that node's own deal deadline.
 		out = append(out,
 			ceremony{Engine: engPedersen, N: 3, T: 2, V: 2, Rep: 5, Focus: "latedeal"},
@@ -199,7 +209,7 @@ func TestCheck(t *testing.T) {
 	// failed or hung while duplicates were injected are information only and leave the denominator;
 	// what may be missing otherwise are ceremonies discarded for wall-clock timeouts of the real code.
 	if !r.Replaying() {
-		denom := r.Counter("ceremonies_started") - r.Counter("ceremonies_failed_under_redelivery") - r.Counter("ceremonies_no_verdict_under_fault") - r.Counter("ceremonies_no_verdict_slow_link") - r.Counter("ceremonies_no_verdict_late_deal")
+		denom := r.Counter("ceremonies_started") - r.Counter("ceremonies_failed_under_redelivery") - r.Counter("ceremonies_no_verdict_under_fault") - r.Counter("ceremonies_no_verdict_slow_link") - r.Counter("ceremonies_no_verdict_late_deal") - r.Counter("ceremonies_no_verdict_late_announcement")
 		if ok := r.Counter("ceremonies_succeeded"); ok*4 < denom*3 {
 			r.Inconclusive("only %d of %d counted ceremonies succeeded (%d more failed under re-delivery and are not counted), need 3/4", ok, denom, r.Counter("ceremonies_failed_under_redelivery"))
 		}
@@ -351,6 +361,13 @@ func runFakenetCeremony(c *kit.Case, cer ceremony, reg *keyRegistry, logs *faken
 		late = &latePlan{D: pm[0], V: pm[1], K: rng.Intn(v), P: slowPhase}
 		phase = slowPhase
 	}
+	var ann *annPlan
+	if cer.Focus == "lateann" {
+		mode, dupProfile = modeLateAnnounce, dupNone
+		pm := rng.Perm(n)
+		ann = &annPlan{C: pm[0], B: pm[1], K: v - 1, P: annPhase} // the last validator: the ceremony ends right after
+		phase = annPhase
+	}
 	patience := 30 * time.Second
 	if cer.Engine == engPedersen {
 		// board handlers block until the protocol goroutine takes the bundle
@@ -363,8 +380,8 @@ func runFakenetCeremony(c *kit.Case, cer ceremony, reg *keyRegistry, logs *faken
 			sc.burst = v
 		}
 	}
-	sc.slow, sc.late = slow, late
-	if slow != nil || late != nil {
+	sc.slow, sc.late, sc.ann = slow, late, ann
+	if slow != nil || late != nil || ann != nil {
 		sc.phaseP = phase
 	}
 	hostOf := func(i int) host.Host { return m.hosts[i] }
@@ -446,7 +463,7 @@ func runFakenetCeremony(c *kit.Case, cer ceremony, reg *keyRegistry, logs *faken
 	remaining := n
 	firstFailed := -1
 	watchdog := ceremonyWatchdog
-	if plan != nil || slow != nil || late != nil {
+	if plan != nil || slow != nil || late != nil || ann != nil {
 		watchdog = faultWatchdog
 	}
 	wd := time.NewTimer(watchdog)
@@ -574,6 +591,20 @@ wait:
 			w["slow_link_report"] = sc.slowGuard(v)
 		}
 		switch {
+		case ann != nil:
+			// An announcement missed its receiver's collect timeout: the receiver fails loudly on the
+			// unchanged tree. A ceremony with a failing node gives no verdict.
+			reason := "did-not-complete"
+			switch {
+			case outcome == outNodeError:
+				reason = errClass(firstErr)
+			case outcome == outWatchdog:
+				reason = "watchdog"
+			}
+			r.Count("ceremonies_no_verdict_late_announcement", 1)
+			r.Count(fmt.Sprintf("late_announcement_outcome/abort/node%v/%s", map[bool]string{true: "-B", false: "-other"}[firstFailed == ann.B], reason), 1)
+			r.Set(fmt.Sprintf("late_announcement_report/case%d", c.Idx), map[string]any{"ceremony": cer.String(), "plan": ann, "outcome": "abort: " + reason,
+				"first_failed_node": firstFailed, "node_errors": errStrings(errs)})
 		case late != nil:
 			// Real phase timers were running: an aborted or hung ceremony gives no verdict.
 			reason := "did-not-complete"
@@ -769,8 +800,29 @@ wait:
 		if !g.InsideModel {
 			sigSuffix = lateSuffix
 		}
+	case ann != nil:
+		// short real phase timers ran here too: label a deal/response that missed a phase deadline
+		sc.mu.Lock()
+		inside, why := sc.deadlineCheck(v, time.Time{})
+		lateBy := sc.annLateBy
+		sc.mu.Unlock()
+		if !inside {
+			sigSuffix = lateSuffix
+		}
+		timing = map[string]any{"announcement_handed_to_B_ms_after_B_collect_timeout": lateBy.Milliseconds(), "every_bundle_inside_receivers_own_deadline": inside, "guard_detail": why}
+		r.Count("late_announcement_ceremonies_completed", 1)
 	}
 	ost := checkShares(c, cer, results, st, reg, sigSuffix)
+	if ann != nil {
+		out := "success with equal outputs"
+		if ost.rejected {
+			out = "success with DIVERGING outputs"
+			r.Count("late_announcement_outcome/success-diverging", 1)
+		} else {
+			r.Count("late_announcement_outcome/success-equal", 1)
+		}
+		r.Set(fmt.Sprintf("late_announcement_report/case%d", c.Idx), map[string]any{"ceremony": cer.String(), "plan": ann, "timing": timing, "outcome": out})
+	}
 	if slow != nil || late != nil {
 		ev := evictionsOf(logs, logStart, c.Idx)
 		outcomeTxt := "success with equal outputs"
